@@ -25,9 +25,11 @@ End AL.
 (* ---------------------------------------------------------------- messages *)
 (* who submitted a message, i.e. what its messageerror_monitor does:
    Req q — TokenManager.request: `lambda: request.add_exception(error.MessageError)` (tokenmanager.py:257)
+   Resp j k — response j produced by the server-side responder k (an entry of TokenManager.incoming_requests):
+           the monitor is that entry's `stop` (tokenmanager.py:139-154)
    Raw k — a response handed to send_message with a recording monitor (what TokenManager.process_request's
            on_event does with `stop`, tokenmanager.py:139-148) *)
-Inductive sub := Req (q : Z) | Raw (k : Z).
+Inductive sub := Req (q : Z) | Raw (k : Z) | Resp (j k : Z).
 
 (* mtype: 0 CON, 1 NON, 2 ACK, 3 RST.  code: 0 EMPTY, 1 GET, 69 2.05 *)
 Record msg := { m_sub : sub; m_remote : Z; m_mtype : Z; m_code : Z; m_mid : Z; m_tok : Z;
@@ -38,6 +40,10 @@ Record msg := { m_sub : sub; m_remote : Z; m_mtype : Z; m_code : Z; m_mid : Z; m
    and the arguments bound in `retr`) *)
 Record exchange := { x_msg : msg; x_due : Z; x_seq : Z; x_timeout : Z; x_counter : Z }.
 
+(* an entry of TokenManager.incoming_requests: key (token, remote), the responder k whose pipe it holds, and the type of
+   the request (a response to a NON request defaults to NON) *)
+Record served := { v_tok : Z; v_remote : Z; v_k : Z; v_mtype : Z }.
+
 Record st := {
   now : Z;                                  (* loop clock, microseconds *)
   seq : Z;                                  (* number of timers created so far (tie-break of the loop) *)
@@ -46,11 +52,12 @@ Record st := {
   rand : list Z;                            (* values random.uniform will return, microseconds *)
   active_exchanges : list exchange;         (* MessageManager._active_exchanges; iteration order is never observable *)
   backlogs : list (Z * list msg);           (* MessageManager._backlogs *)
-  outgoing_requests : list (Z * Z * Z)      (* TokenManager.outgoing_requests: ((token, remote), request q), insertion order *)
+  outgoing_requests : list (Z * Z * Z);     (* TokenManager.outgoing_requests: ((token, remote), request q), insertion order *)
+  incoming_requests : list served           (* TokenManager.incoming_requests: (token, remote) -> (pipe, stop), insertion order *)
 }.
 
 Inductive errclass := MessageError | ConRetransmitsExceeded | NetworkError.
-Inductive exnclass := AssertionError | KeyError.
+Inductive exnclass := AssertionError | KeyError | TypeError.
 
 Inductive output :=
 | Tx (m : msg) (retr : bool)                (* message_interface.send(message); retr = from _retransmit *)
@@ -58,18 +65,21 @@ Inductive output :=
 | Fired (r mid : Z)                         (* which exchange's timer the loop ran *)
 | Deliver (q : Z) | Fail (q : Z) (e : errclass) | Cancelled (q : Z)    (* completion of request q *)
 | Monitor (k : Z)                           (* messageerror_monitor of raw send k called *)
+| Ended (k : Z)                             (* the pipe of server-side responder k lost its interest (handler cancelled / finished) *)
 | Crash (e : exnclass)                      (* exception leaving dispatch_message / dispatch_error / a timer *)
 | Submitted (m : msg)                       (* ghost: send_message was called with m (after mid assignment) *)
 | Dropped (m : msg).                        (* ghost: m was discarded from a backlog without being sent *)
 
 Definition upd_now s v := {| now := v; seq := seq s; message_id := message_id s; token := token s; rand := rand s;
-  active_exchanges := active_exchanges s; backlogs := backlogs s; outgoing_requests := outgoing_requests s |}.
+  active_exchanges := active_exchanges s; backlogs := backlogs s; outgoing_requests := outgoing_requests s; incoming_requests := incoming_requests s |}.
 Definition upd_ex s v := {| now := now s; seq := seq s; message_id := message_id s; token := token s; rand := rand s;
-  active_exchanges := v; backlogs := backlogs s; outgoing_requests := outgoing_requests s |}.
+  active_exchanges := v; backlogs := backlogs s; outgoing_requests := outgoing_requests s; incoming_requests := incoming_requests s |}.
 Definition upd_bl s v := {| now := now s; seq := seq s; message_id := message_id s; token := token s; rand := rand s;
-  active_exchanges := active_exchanges s; backlogs := v; outgoing_requests := outgoing_requests s |}.
+  active_exchanges := active_exchanges s; backlogs := v; outgoing_requests := outgoing_requests s; incoming_requests := incoming_requests s |}.
 Definition upd_out s v := {| now := now s; seq := seq s; message_id := message_id s; token := token s; rand := rand s;
-  active_exchanges := active_exchanges s; backlogs := backlogs s; outgoing_requests := v |}.
+  active_exchanges := active_exchanges s; backlogs := backlogs s; outgoing_requests := v; incoming_requests := incoming_requests s |}.
+Definition upd_in s v := {| now := now s; seq := seq s; message_id := message_id s; token := token s; rand := rand s;
+  active_exchanges := active_exchanges s; backlogs := backlogs s; outgoing_requests := outgoing_requests s; incoming_requests := v |}.
 
 Definition key_eqb (r mid : Z) (x : exchange) : bool := (m_remote (x_msg x) =? r) && (m_mid (x_msg x) =? mid).
 Definition xget (r mid : Z) (l : list exchange) : option exchange := find (key_eqb r mid) l.
@@ -88,10 +98,14 @@ Definition tok_of (e : Z * Z * Z) : Z := fst (fst e).
 Definition outstanding (q : Z) (s : st) : bool := existsb (fun e => q_of e =? q) (outgoing_requests s).
 Definition forget_request (q : Z) (s : st) : st := upd_out s (filter (fun e => negb (q_of e =? q)) (outgoing_requests s)).
 
-(* tokenmanager.py:74-110 dispatch_error: every outgoing request to that remote gets the exception, in dict order *)
+(* tokenmanager.py:74-110 dispatch_error: every outgoing request to that remote gets the exception, in dict order;
+   then the stopper of every incoming request from that remote is called: its pipe loses interest, the handler is
+   cancelled, on_end deletes the entry *)
 Definition tm_dispatch_error (e : errclass) (r : Z) (s : st) : st * list output :=
-  (upd_out s (filter (fun o => negb (remote_of o =? r)) (outgoing_requests s)),
-   map (fun o => Fail (q_of o) e) (filter (fun o => remote_of o =? r) (outgoing_requests s))).
+  (upd_in (upd_out s (filter (fun o => negb (remote_of o =? r)) (outgoing_requests s)))
+          (filter (fun v => negb (v_remote v =? r)) (incoming_requests s)),
+   map (fun o => Fail (q_of o) e) (filter (fun o => remote_of o =? r) (outgoing_requests s)) ++
+   map (fun v => Ended (v_k v)) (filter (fun v => v_remote v =? r) (incoming_requests s))).
 
 (* tokenmanager.py:177-208 process_response (no observe): pop the matching request, deliver *)
 Definition tm_process_response (r tok : Z) (s : st) : st * list output * bool :=
@@ -105,26 +119,32 @@ Definition tm_process_response (r tok : Z) (s : st) : st * list output * bool :=
    `lambda: request.add_exception(error.MessageError)`: it fails the request unless its pipe has already ended;
    the pipe is alive exactly while its (token, remote) key is in outgoing_requests, and ending it pops that key. *)
 Definition key_of (m : msg) (e : Z * Z * Z) : bool := (tok_of e =? m_tok m) && (remote_of e =? m_remote m).
+(* `stop` of responder k (tokenmanager.py:170): unregisters the pipe's event handler; if the pipe has not ended yet it
+   ends now (on_end deletes the entry), otherwise nothing happens *)
+Definition alive (k : Z) (s : st) : bool := existsb (fun v => v_k v =? k) (incoming_requests s).
+Definition stop_responder (k : Z) (s : st) : st * list output :=
+  if alive k s then (upd_in s (filter (fun v => negb (v_k v =? k)) (incoming_requests s)), [Ended k]) else (s, []).
 Definition call_monitor (m : msg) (s : st) : st * list output :=
   match m_sub m with
   | Req q => if existsb (key_of m) (outgoing_requests s)
              then (upd_out s (filter (fun e => negb (key_of m e)) (outgoing_requests s)), [Fail q MessageError])
              else (s, [])
   | Raw k => (s, [Monitor k])
+  | Resp _ k => stop_responder k s
   end.
 
 (* ---------------------------------------------------------------- MessageManager: retransmission sublayer *)
 (* messagemanager.py:310-330 _schedule_retransmit: loop.call_later(timeout, retr) *)
 Definition schedule_retransmit (m : msg) (timeout counter : Z) (s : st) : st * exchange :=
   ({| now := now s; seq := seq s + 1; message_id := message_id s; token := token s; rand := rand s;
-      active_exchanges := active_exchanges s; backlogs := backlogs s; outgoing_requests := outgoing_requests s |},
+      active_exchanges := active_exchanges s; backlogs := backlogs s; outgoing_requests := outgoing_requests s; incoming_requests := incoming_requests s |},
    {| x_msg := m; x_due := now s + timeout; x_seq := seq s; x_timeout := timeout; x_counter := counter |}).
 
 Definition random_uniform (s : st) : Z * st :=
   match rand s with
   | [] => (2000000, s)                       (* ACK_TIMEOUT *)
   | t :: rest => (t, {| now := now s; seq := seq s; message_id := message_id s; token := token s; rand := rest;
-                        active_exchanges := active_exchanges s; backlogs := backlogs s; outgoing_requests := outgoing_requests s |})
+                        active_exchanges := active_exchanges s; backlogs := backlogs s; outgoing_requests := outgoing_requests s; incoming_requests := incoming_requests s |})
   end.
 
 (* messagemanager.py:242-263 _add_exchange *)
@@ -208,7 +228,7 @@ Definition resolve_mtype (mt : Z) : Z :=
 Definition next_message_id (s : st) : Z * st :=
   (message_id s,
    {| now := now s; seq := seq s; message_id := Z.land 65535 (1 + message_id s); token := token s; rand := rand s;
-      active_exchanges := active_exchanges s; backlogs := backlogs s; outgoing_requests := outgoing_requests s |}).
+      active_exchanges := active_exchanges s; backlogs := backlogs s; outgoing_requests := outgoing_requests s; incoming_requests := incoming_requests s |}).
 
 (* messagemanager.py:423-517 send_message (unicast, not shut down, no piggy-back opportunity) *)
 Definition send_message (who : sub) (r mt code tok maxre : Z) (s : st) : st * list output :=
@@ -228,11 +248,35 @@ Definition send_message (who : sub) (r mt code tok maxre : Z) (s : st) : st * li
 Definition next_token (s : st) : Z * st :=
   let t := (token s + 1) mod 2 ^ 64 in
   (t, {| now := now s; seq := seq s; message_id := message_id s; token := t; rand := rand s;
-         active_exchanges := active_exchanges s; backlogs := backlogs s; outgoing_requests := outgoing_requests s |}).
+         active_exchanges := active_exchanges s; backlogs := backlogs s; outgoing_requests := outgoing_requests s; incoming_requests := incoming_requests s |}).
 Definition tm_request (q r mt maxre : Z) (s : st) : st * list output :=
   let '(tok, s) := next_token s in
   let s := upd_out s (outgoing_requests s ++ [((tok, r), q)]) in
   send_message (Req q) r mt 1 tok maxre s.
+
+(* tokenmanager.py:112-175 process_request: an incoming request (already past the message layer) gets a pipe; a request
+   on a (token, remote) that is still served stops the old responder first *)
+Definition tm_process_request (k r tok mt : Z) (s : st) : st * list output :=
+  let same := fun v => (v_tok v =? tok) && (v_remote v =? r) in
+  (upd_in s (filter (fun v => negb (same v)) (incoming_requests s) ++ [{| v_tok := tok; v_remote := r; v_k := k; v_mtype := mt |}]),
+   map (fun v => Ended (v_k v)) (filter same (incoming_requests s))).
+
+(* responder k puts response j into its pipe: Pipe.add_response -> _add_event -> on_event (tokenmanager.py:128-158) ->
+   token_interface.send_message(m, stop).  [send] is send_message (of this file, or of Model/C14refuse.v).
+   pipe.py:184-199 _add_event: a last event ends the pipe afterwards (unless it ended inside the callback); after a
+   non-last event `self._any_interest()` is evaluated — if the pipe ended inside the callback (`stop` called
+   re-entrantly: the transport refused the datagram and dispatch_error ran the stoppers) `_event_callbacks` is False
+   and that raises TypeError. *)
+Definition respond (send : sub -> Z -> Z -> Z -> Z -> Z -> st -> st * list output) (j k : Z) (last : bool) (maxre : Z) (s : st) : st * list output :=
+  match find (fun v => v_k v =? k) (incoming_requests s) with
+  | None => (s, [])                              (* pipe has ended: the event is discarded with a log line *)
+  | Some v =>
+      let '(s1, o1) := send (Resp j k) (v_remote v) (if v_mtype v =? 1 then 7 else 8) 69 (v_tok v) maxre s in
+      if last then
+        if alive k s1 then let '(s2, o2) := stop_responder k s1 in (s2, o1 ++ o2) else (s1, o1)
+      else
+        if alive k s1 then (s1, o1) else (s1, o1 ++ [Crash TypeError])
+  end.
 
 (* ---------------------------------------------------------------- MessageManager: incoming (messagemanager.py:97-155) *)
 Definition send_empty (r mtype mid : Z) (s : st) : st * list output := (s, [TxEmpty r mtype mid]).
@@ -267,7 +311,9 @@ Inductive event :=
 | TransportError (r : Z)                     (* the transport reports an error for r: MessageManager.dispatch_error *)
 | Fire                                       (* the loop runs the pending timer with the least (due, seq) *)
 | Advance (d : Z)                            (* time passes without any timer becoming due *)
-| Cancel (q : Z).                            (* the application cancels request q *)
+| Cancel (q : Z)                             (* the application cancels request q *)
+| Serve (k r tok mt : Z)                     (* TokenManager.process_request of a request (type mt) from r: responder k starts *)
+| Respond (j k : Z) (last : bool) (maxre : Z). (* responder k produces response j (last or not) *)
 
 Definition fire (s : st) : st * list output :=
   match min_timer (active_exchanges s) with
@@ -294,6 +340,8 @@ Definition step (s : st) (e : event) : st * list output :=
   | Fire => fire s
   | Advance d => (advance d s, [])
   | Cancel q => if outstanding q s then (forget_request q s, [Cancelled q]) else (s, [])
+  | Serve k r tok mt => tm_process_request k r tok mt s
+  | Respond j k last maxre => respond send_message j k last maxre s
   end.
 
 (* per-step outputs, for the correspondence run *)
@@ -305,11 +353,11 @@ Fixpoint run (s : st) (es : list event) : st * list (list output) :=
 
 Definition init (mid0 token0 : Z) (rnd : list Z) : st :=
   {| now := 0; seq := 0; message_id := mid0; token := token0; rand := rnd;
-     active_exchanges := []; backlogs := []; outgoing_requests := [] |}.
+     active_exchanges := []; backlogs := []; outgoing_requests := []; incoming_requests := [] |}.
 
 (* what the harness compares at the end of a script *)
 Definition final_view (s : st) :=
   (now s, map (fun x => (m_remote (x_msg x), m_mid (x_msg x))) (active_exchanges s),
-   map (fun p => (fst p, map m_sub (snd p))) (backlogs s), map q_of (outgoing_requests s), message_id s, token s).
+   map (fun p => (fst p, map m_sub (snd p))) (backlogs s), map q_of (outgoing_requests s), message_id s, token s, map v_k (incoming_requests s)).
 Definition run_view (mid0 token0 : Z) (rnd : list Z) (es : list event) :=
   let '(s, os) := run (init mid0 token0 rnd) es in (os, final_view s).
